@@ -291,6 +291,14 @@ def build(template_path, repo):
                 src = open(os.path.join(repo, kv["file"])).read()
                 a, b = rs.find_item(src, kind, kv["name"])
                 item = rs.strip_attrs_and_docs(src[a:b])
+                if "derive" in kv:
+                    # keep selected derives of the original item (X1 keeps them only on request; they must be present in the source)
+                    pre = src[max(0, a - 600):a]
+                    attrs = " ".join(re.findall(r"#\[derive\(([^)]*)\)\]", pre[pre.rfind("}") + 1:] if "}" in pre else pre))
+                    for dname in kv["derive"].split(","):
+                        if not re.search(r"\b%s\b" % re.escape(dname), attrs):
+                            raise ScanError("LOST-ANCHOR %s %s no longer derives %s" % (kind, kv["name"], dname))
+                    item = "#[derive(%s)]\n" % ", ".join(kv["derive"].split(",")) + item
                 if "vis" in kv:  # optional: rewrite visibility (annotation only; types unchanged)
                     item = re.sub(r"^(pub\s*(\([^)]*\))?\s*)?", kv["vis"].replace("_", " ") + " ", item, count=1)
                 out.append(item)
